@@ -541,8 +541,14 @@ ZSTDMT_serialState_reset(serialState_t* serialState,
         if (dictSize > 0) {
             if (dictContentType == ZSTD_dct_rawContent) {
                 BYTE const* const dictEnd = (const BYTE*)dict + dictSize;
-                ZSTD_window_update(&serialState->ldmState.window, dict, dictSize, /* forceNonContiguous */ 0);
-                ZSTD_ldm_fillHashTable(&serialState->ldmState, (const BYTE*)dict, dictEnd, &params.ldmParams);
+                /* The first job searches this dictionary through a CDict (see ZSTDMT_initCStream_internal()),
+                 * which keeps only the end of an oversized dictionary :
+                 * the LDM must not propose matches in the part that the CDict does not hold. */
+                size_t const maxDictSize = ZSTD_maxDictContentSize(&params.cParams, ZSTD_tfp_forCDict);
+                size_t const keptSize = MIN(dictSize, maxDictSize);
+                BYTE const* const kept = dictEnd - keptSize;
+                ZSTD_window_update(&serialState->ldmState.window, kept, keptSize, /* forceNonContiguous */ 0);
+                ZSTD_ldm_fillHashTable(&serialState->ldmState, kept, dictEnd, &params.ldmParams);
                 serialState->ldmState.loadedDictEnd = params.forceWindow ? 0 : (U32)(dictEnd - serialState->ldmState.window.base);
             } else {
                 /* don't even load anything */
